@@ -29,6 +29,11 @@ def run(tier, seed, work):
     per, depth, nj = (2, 20, 10) if quick else (10, 40, 12)
     js = hc.jobs("c08", seed + 4, per, depth, nj, mode="mutations") + hc.jobs("c08", seed + 6, per, depth, max(2, nj // 3))
     groups = [("Trace_Handover.tla", "Trace_Handover_C08.cfg", js)]
+    # "whatever the queue backlog, mempool contents or LAST BLOCK were": relayer-membership histories (members leave, the proposer
+    # itself is asked to leave, elections, joins) whose every block is the honest proposer's proposal offered to ProcessProposal -
+    # a refused one ends the history with a `halt` event, which Trace_Robust explains by no action
+    from checks import relayer_common as rc_
+    groups.append(("Trace_Robust.tla", "Trace_Robust.cfg", rc_.jobs(seed + 50, 3 if quick else 20, 30, 4 if quick else 8, 3, 2, "c08rel")))
     rc = verif.run_stateful_check("C08", tier, seed, work, mc_list=mc, groups=groups, key_fn=hc.key,
                                   level="model_checking", assumptions=hc.ASSUME, rule=RULE)
     races, se = race_run("C08", seed, work, quick)
